@@ -350,6 +350,7 @@ type gen struct {
 	pendBot []outBot // retrieved bottom requests not yet answered
 	doneBot []outBot
 	crashed bool
+	lastCtl uint64 // flags of the last accepted control message (0 = none yet)
 }
 
 func (g *gen) do(e Event) *Event {
@@ -364,6 +365,8 @@ func (g *gen) do(e Event) *Event {
 	}
 	acc := e.Acc != nil && *e.Acc
 	switch {
+	case e.E == "dc" && acc && e.Msg.Kind == "KCtrl":
+		g.lastCtl = e.Msg.Flags
 	case e.E == "rb" && e.Got != nil:
 		g.pendBot = append(g.pendBot, outBot{id: e.Got.ID, read: e.Got.Kind == "KRead", addr: e.Got.Addr, size: int(e.Got.Size)})
 	case e.E == "rx" && e.GotQ != nil:
@@ -438,6 +441,9 @@ func generate(rng *vh.Rng, hostile bool) Case {
 	if rng.Intn(3) == 0 {
 		wCtl = 1 + rng.Intn(4)
 	}
+	// two thirds of the histories with control traffic follow the protocol (discard, then
+	// restart, alternating); the others send discards and restarts in any order
+	protocol := rng.Intn(3) != 0
 	wBad := 0
 	if hostile && rng.Intn(3) == 0 {
 		wBad = 1 // messages that make the translator panic end a history early: keep them rare
@@ -523,7 +529,11 @@ func generate(rng *vh.Rng, hostile bool) Case {
 			g.do(Event{E: "rx"})
 		case 7:
 			fl := uint64(vh.FDiscard)
-			if rng.Intn(5) < 2 {
+			if protocol {
+				if g.lastCtl&vh.FDiscard != 0 {
+					fl = vh.FRestart
+				}
+			} else if rng.Intn(5) < 2 {
 				fl = vh.FRestart
 			}
 			m := vh.Msg{ID: ctlID, Kind: "KCtrl", Src: 20, Dst: pCtl, Flags: fl}
@@ -557,10 +567,86 @@ func generate(rng *vh.Rng, hostile bool) Case {
 		}
 	}
 	if !hostile && !g.crashed {
-		g.drain()
+		g.finish()
 	}
 	c.Coq = caseCoq(&c)
 	return c
+}
+
+// finish ends a valid history the way a well-behaved system does: pending
+// control traffic is acknowledged, a discard is followed by a restart, every page
+// of every process touched so far is accessed once more, and then everything is
+// drained.  It only looks at the recorded events, so a replay can repeat it.
+func (g *gen) finish() {
+	k := g.c.Cfg.Log2PS
+	settle := func() {
+		for i := 0; i < 6 && !g.crashed; i++ {
+			g.do(Event{E: "rc"})
+			g.do(Event{E: "tick"})
+		}
+		if !g.crashed {
+			g.do(Event{E: "rc"})
+		}
+	}
+	round := func() {
+		for _, port := range []string{"rt", "rb", "rx"} {
+			if !g.crashed {
+				g.do(Event{E: port})
+			}
+		}
+		if !g.crashed {
+			g.do(Event{E: "tick"})
+		}
+	}
+	type key struct{ page, pid uint64 }
+	var keys []key
+	seen := map[key]bool{}
+	nextTop, ctlID := uint64(1), uint64(500000)
+	for _, e := range g.c.Events {
+		if e.Msg == nil {
+			continue
+		}
+		if e.E == "dc" && e.Msg.ID >= ctlID {
+			ctlID = e.Msg.ID + 1
+		}
+		if (e.E == "dt" || e.E == "db" || e.E == "dc") && e.Msg.ID < 500000 && e.Msg.ID >= nextTop {
+			nextTop = e.Msg.ID + 1
+		}
+		if e.E == "dt" && e.Acc != nil && *e.Acc && (e.Msg.Kind == "KRead" || e.Msg.Kind == "KWrite") {
+			kk := key{(e.Msg.Addr >> k) << k, e.Msg.PID}
+			if !seen[kk] {
+				seen[kk] = true
+				keys = append(keys, kk)
+			}
+		}
+	}
+	settle()
+	if g.lastCtl&vh.FDiscard != 0 {
+		for try := 0; try < 10 && !g.crashed; try++ {
+			m := vh.Msg{ID: ctlID, Kind: "KCtrl", Src: 20, Dst: pCtl, Flags: vh.FRestart}
+			ctlID++
+			e := g.do(Event{E: "dc", Msg: &m})
+			settle()
+			if e.Acc != nil && *e.Acc {
+				break
+			}
+		}
+	}
+	for _, kk := range keys {
+		for try := 0; try < 40 && !g.crashed; try++ {
+			m := vh.Msg{ID: nextTop, Kind: "KRead", Src: 10, Dst: pTop, Addr: kk.page + 8, Size: 4,
+				PID: kk.pid, RspTo: nextTop}
+			nextTop++
+			e := g.do(Event{E: "dt", Msg: &m})
+			if e.Acc != nil && *e.Acc {
+				break
+			}
+			round()
+		}
+	}
+	if !g.crashed {
+		g.drain()
+	}
 }
 
 // drain plays a fair environment until nothing moves any more: every lookup
@@ -630,7 +716,7 @@ func replay(c Case) Case {
 	}
 	// a drained history is drained again (shrinking may have cut its tail)
 	if c.Drained && !g.crashed {
-		g.drain()
+		g.finish()
 	}
 	out.Coq = caseCoq(&out)
 	return out
